@@ -234,7 +234,7 @@ func run(p *kernel.Plan) (res *kernel.Result) {
 			sendFail = fmt.Sprintf("C03/roundtrip-differs:%s|op %d %s: unmarshalled copy re-marshals to %d bytes (Size %d), original %d bytes, err %v", kind, i, op.K, len(b2), f.Size(), len(b), err)
 			return true
 		}
-		rec := sendRec{op: i, kind: kind, bytes: b, step0: s.S.Steps}
+		rec := sendRec{op: i, kind: kind, bytes: b, step0: s.S.Now()}
 		switch q := pkt.(type) {
 		case *rtmp.ConnectAppPacket:
 			rec.reqName, rec.tid = "connect", float64(q.TransactionID)
@@ -246,7 +246,7 @@ func run(p *kernel.Plan) (res *kernel.Result) {
 			rec.isResp, rec.respTid = true, float64(q.TransactionID)
 		}
 		rec.err = e.Proto.WritePacket(pkt, int(uint32(i)*7))
-		rec.step1 = s.S.Steps
+		rec.step1 = s.S.Now()
 		sd.sends = append(sd.sends, rec)
 		t.Evf("sent", "%s %s %dB err=%v", e.Name, kind, len(b), rec.err)
 		if rec.err != nil {
@@ -259,7 +259,7 @@ func run(p *kernel.Plan) (res *kernel.Result) {
 		sd := sides[idx(e)]
 		defer func() { sd.done = 1 }()
 		record := func(rr recvRec, m *rtmp.Message, pkt rtmp.Packet) {
-			rr.step = s.S.Steps
+			rr.step = s.S.Now()
 			if m != nil {
 				rr.msgType, rr.payload = byte(m.MessageType), m.Payload
 			}
@@ -284,7 +284,7 @@ func run(p *kernel.Plan) (res *kernel.Result) {
 				if len(op.S) < 1 {
 					continue
 				}
-				rr := recvRec{mode: "wait", want: op.S[0], step0: s.S.Steps}
+				rr := recvRec{mode: "wait", want: op.S[0], step0: s.S.Now()}
 				var m *rtmp.Message
 				var pkt rtmp.Packet
 				var err error
@@ -326,7 +326,7 @@ func run(p *kernel.Plan) (res *kernel.Result) {
 					return
 				}
 			case "waitmsg":
-				rr := recvRec{mode: "waitmsg", want: fmt.Sprint(op.N), step0: s.S.Steps}
+				rr := recvRec{mode: "waitmsg", want: fmt.Sprint(op.N), step0: s.S.Now()}
 				var ts []rtmp.MessageType
 				for _, n := range op.N {
 					ts = append(ts, rtmp.MessageType(n))
@@ -340,7 +340,7 @@ func run(p *kernel.Plan) (res *kernel.Result) {
 			}
 		}
 		for {
-			rr := recvRec{mode: "plain", step0: s.S.Steps}
+			rr := recvRec{mode: "plain", step0: s.S.Now()}
 			m, err := e.Proto.ReadMessage()
 			if err != nil {
 				rr.err = err
